@@ -21,6 +21,7 @@ INJECT = {
     "png.rs": "src/filters/png.rs",
     "writer.rs": "src/writer.rs",
     "object.rs": "src/object.rs",
+    "object_stream.rs": "src/object_stream.rs",
     "parser_aux.rs": "src/parser_aux.rs",
     "xref.rs": "src/xref.rs",
     "reader.rs": "src/reader.rs",
